@@ -21,7 +21,7 @@ def warmup():
 
 def mon(s, obs):
     v = rungrid.mon_parallel(s)
-    if s.exc is not None:
+    if s.exc is not None and not (s.case.get("fails") and type(s.exc).__name__ in ("TaskFailed", "TaskNonZeroExit")):
         v.append(("par:internal-error", "cond run ended with %s: %s" % (type(s.exc).__name__, s.exc)))
     return v
 
@@ -51,6 +51,14 @@ def items(tier):
                         bound = 2 if n <= 2 else 1
                     out.append({"case": {"g": g, "kinds": kinds, "pars": pars, "jobs": jobs, "fails": {}, "force_j": True},
                                 "bound": bound})
+    # a task that cannot be launched among parallel siblings (slot bookkeeping on the failure path)
+    for g in ([[1, 2, 3, 4], [], [], [], []], [[1, 2, 3], [], [], []], [[1, 2], [3, 4], [3, 4], [], []]):
+        n = len(g)
+        for failing in range(1, n):
+            for kinds in (["cmd"] * n, ["exp"] * n):
+                for jobs in (2, 3):
+                    for fk in (["launch"], ["exit", 3]):
+                        out.append({"case": {"g": g, "kinds": kinds, "pars": [True] * n, "jobs": jobs, "fails": {str(failing): fk}}, "bound": 0})
     # wide shapes: antichain under a root, n = 5 (root + 4 leaves), and two-level fans
     wide = [[[1, 2, 3, 4], [], [], [], []], [[1, 2], [3, 4], [3, 4], [], []], [[1, 2, 3], [4], [4], [4], []]]
     for g in wide:
